@@ -15,10 +15,16 @@ TLC_SCHEMAS = {
           "message Top {\n    A a = 1\n    B b = 2\n}\n",
     "S2": "proto S2\n\nmessage A {\n    uint7 x = 1\n    bool z = 2\n}\n\nmessage B {\n    uint5 y = 1\n}\n\n"
           "message Top {\n    A a = 1\n    B b = 2\n}\n",
-    "S3": "proto S3\n\nmessage C {\n    uint3 x = 1\n}\n\nmessage Top {\n    C a = 1\n}\n",
+    # S3 ends in comment lines (a commented-out definition at the bottom, nothing after it): text that belongs to
+    # no definition of this file and must not reach any later compilation
+    "S3": "proto S3\n\nmessage C {\n    uint3 x = 1\n}\n\nmessage Top {\n    C a = 1\n}\n"
+          "// TODO enable once the receiver is ready\n// message Pong {\n//     uint8 seq = 1\n// }\n",
 }
 
 HAND = {
+    # comments above the proto line, above definitions, and trailing comment lines without a final newline
+    "h4": "// file header of h4\nproto h4\n\n// about Top\nmessage Top {\n    // about a\n    uint9 a = 1\n}\n"
+          "// trailing note of h4\n// second trailing line\n",
     "h1": "proto h1\n\nenum color_kind : uint3 {\n    COLOR_KIND_RED = 0\n    COLOR_KIND_BLUE = 1\n}\n\n"
           "message sensor_data {\n    uint3 sensor_kind = 1\n    color_kind c = 2\n}\n\n"
           "message Top {\n    sensor_data[2] items = 1\n    int13 delta_value = 2\n}\n",
